@@ -38,7 +38,10 @@ class RemoveBackticks(FunctionContract):
         self.name = z3.String("expr_name")
 
     def params(self, ctx):
-        ctx.env["expr"] = VNode(self.is_var, self.name)
+        a = ctx.engine.fn.args
+        if len(a.args) != 1 or a.vararg or a.kwarg or a.kwonlyargs:
+            raise Unsupported("remove_backticks takes one positional parameter (SubstitutionMapper calls it with the node)")
+        ctx.env[a.args[0].arg] = VNode(self.is_var, self.name)      # whatever the parameter is called
         ctx.ghost["built"] = z3.StringVal("")
 
     def isinstance_hook(self, ctx, it, obj, names):
@@ -282,7 +285,10 @@ class ParseTerminal(FunctionContract):
 
 
 def units():
-    return [FunctionUnit(RemoveBackticks()), FunctionUnit(ParseBody()), FunctionUnit(ParseTerminal())]
+    from pyvc.contracts import ClassShapeUnit
+    return [FunctionUnit(RemoveBackticks()), FunctionUnit(ParseBody()), FunctionUnit(ParseTerminal()),
+            ClassShapeUnit("dagrt/expression.py", "_ExtendedParser", {"parse_terminal", "lex_table"}, ["Parser"],
+                           "the use of pymbolic's parser as it is, but for the terminal rule and the lexer table,")]
 
 
 LEVEL = "exploration"
